@@ -227,6 +227,7 @@ def parseRpc (fs : Fields) : Except String Api.Rpc := do
     pure (.updateSub r (← parsePaths fs))
   | "deleteSub" => pure (.deleteSub (← fstr fs "name"))
   | "listSubs" => pure (.listSubs (← fstr fs "project") (← fint fs "size") (← parseToken fs))
+  | "listTopicSubs" => pure (.listTopicSubs (← fstr fs "topic") (← fint fs "size") (← parseToken fs))
   | "modifyPush" => pure (.modifyPush (← fstr fs "name") (← parsePush ((fget fs "push").getD "-")))
   | "pullCheck" => pure (.pullCheck (← fstr fs "name") (← fint fs "max"))
   | "ackCheck" => pure (.ackCheck (← fstr fs "name") (← fbool fs "parse") (← fbool fs "ack"))
